@@ -136,6 +136,14 @@ where
     b
 }
 
+fn with_flag_bits(mut ctx: Vec<u8>, flags_at: usize, ip: u64) -> Vec<u8> {
+    if (ip >> 6) & 1 == 1 || (ip >> 12) & 1 == 0 {
+        let f = u32::from_le_bytes(ctx[flags_at..flags_at + 4].try_into().unwrap()) | 0x40;
+        ctx[flags_at..flags_at + 4].copy_from_slice(&f.to_le_bytes());
+    }
+    ctx
+}
+
 impl CpuK {
     pub fn arch(self) -> u16 {
         use md::ProcessorArchitecture::*;
@@ -201,8 +209,10 @@ impl CpuK {
     pub fn context(self, ip: u64, sp: u64) -> Option<Vec<u8>> {
         let e = Endian::Little;
         Some(match self {
-            CpuK::X86 | CpuK::X86Wow => synth::x86_context(e, ip as u32, sp as u32).get_contents().unwrap(),
-            CpuK::Amd64 => synth::amd64_context(e, ip, sp).get_contents().unwrap(),
+            // (x86 / amd64 contexts may carry flag bits outside the CPU-type byte, CONTEXT_HAS_XSTATE = 0x40 among them:
+            // every other instruction-pointer value gets it)
+            CpuK::X86 | CpuK::X86Wow => with_flag_bits(synth::x86_context(e, ip as u32, sp as u32).get_contents().unwrap(), 0, ip),
+            CpuK::Amd64 => with_flag_bits(synth::amd64_context(e, ip, sp).get_contents().unwrap(), 0x30, ip),
             CpuK::Arm64 => synth::arm64_context(e, ip, sp).get_contents().unwrap(),
             CpuK::Arm => zeroed_ctx::<md::CONTEXT_ARM>(|c| {
                 c.context_flags = 0x4000_0002;
